@@ -1,9 +1,58 @@
 import RegexVerif.Sexp
+import RegexVerif.Model.AutoAtomic
+import RegexVerif.Driver.SpecIO
+import RegexVerif.Driver.C04
 
 namespace RegexVerif.Driver
-open RegexVerif Sexp
+open RegexVerif Sexp Spec AutoAtomic
 
-/-- protocol lines with head `c05` (stub) -/
-def handleC05 (_args : List Sexp) : String := "(unimplemented)"
+def siteSexp : Site → Sexp
+  | .acc p => mk "acc" [predSexp p]
+  | .btw p => mk "btw" [predSexp p]
+  | .top => mk "top" []
+
+def errSexp : Err → Sexp
+  | .blocked s c => mk "blocked" [siteSexp s, ofNat c]
+  | .pending s w => mk "pending" [siteSexp s, ofNat w]
+  | .other c => mk "other" [ofNat c]
+
+def predPair? : Sexp → Option (Pred × Pred)
+  | .list [a, b] => do some ((← pred? a), (← pred? b))
+  | _ => none
+
+/-- the oracle given by two tables: the pairs of tests declared disjoint (either order) and the tests
+    declared uniform -/
+def tableOracle (dj : List (Pred × Pred)) (un : List Pred) : Oracle :=
+  { disj := fun p q => dj.contains (p, q) || dj.contains (q, p), uni := fun p => un.contains p }
+
+/-- `(c05 cert <rtl 0|1> <p> <p'> (disj (<pred> <pred>)…) (uni <pred>…))` →
+    `(ok <0|1> (made N) (errs E…))`: the verdict `certTopDir` of `Model/AutoAtomic.lean` for the
+    un-rewritten tree `p` and the rewritten tree `p'` (direction `rtl`), the number of rewritten places
+    recognised, and why the pair is not certified: `(blocked <site> code)` a pending site meets a
+    continuation (classified by `patCode`) that neither fails nor stays at its dead positions,
+    `(pending <site> why)` a site is still pending where only the first success is kept and the first
+    successes are not known to agree (`why = 17`: the site passed `\B`, `1`: a lazy loop made greedy),
+    `(other code)` a difference that is not one of the modelled rewrites.
+    `<site>` = `(acc pred)` | `(btw pred)` | `(top)`.
+
+    `(c05 endfix <p'>)` → `(ok 0|1)`: is the tree a fixed point of `endAtomicTop`? -/
+def handleC05 (args : List Sexp) : String :=
+  match args with
+  | [.atom "cert", rtl, p, p', dj, un] =>
+    match rtl.bool?, pat? p, pat? p', tagged? "disj" dj, tagged? "uni" un with
+    | some rtl, some p, some p', some dj, some un =>
+      match dj.mapM predPair?, un.mapM pred? with
+      | some dj, some un =>
+        let o := tableOracle dj un
+        let r := (cert o rtl p p').close
+        toString (Sexp.list [.atom "ok", ofBool (certTopDir o rtl p p'), mk "made" [ofNat r.made], mk "errs" (r.errs.map errSexp)])
+      | _, _ => "(bad-oracle)"
+    | _, _, _, _, _ => "(bad-args)"
+  | [.atom "endfix", p] =>
+    -- the engine's final left-to-right tree is a fixed point of Lean's model of eliminateEndingBacktracking
+    match pat? p with
+    | some p => if endAtomicTop p = p then "(ok 1)" else "(ok 0)"
+    | none => "(bad-args)"
+  | _ => "(bad-op)"
 
 end RegexVerif.Driver
